@@ -53,9 +53,26 @@ def check_forest(drv, ev, f, data, labels, via_word):
             got_units = [(s[-1]["off"], s[-1]["p"], s[-1]["ver"], s[-1]["raw"]) for s in ru.get("res", [])]
             if "error" in ru or got_units != [(u.offset, i, u.version, 1) for i, u in enumerate(exp_units)]:
                 bad = "raw unit: got %r, expected %r (%s)" % (got_units, [(u.offset, i, u.version) for i, u in enumerate(exp_units)], ru.get("error"))
+            exp = DF.raw_entries(f)
+            # The answers must not depend on the order in which they are asked for: on every other file the
+            # first questions put to the fresh handle are the parents of the DIEs of the *last* unit, then of
+            # the one before it, ... (the forward sweep below comes second there).
+            if not bad and len(data) % 2 == 0 and len(exp_units) >= 2:
+                rr = drv.run(pre + "[unit] relem entry (|D| [D offset] [D parent offset] [D unit offset])", tok, limit=20000, steps=50000000)
+                by_off = {d.offset: d for d in exp}
+                ev.label("reverse-unit-order-first")
+                if "error" in rr or len(rr.get("res", [])) != len(exp):
+                    bad = "units in reverse order: %d DIEs, the file has %d (%s)" % (len(rr.get("res", [])), len(exp), rr.get("error"))
+                else:
+                    for row in rr["res"]:
+                        o, par, un = ints(row[-3])[0], ints(row[-2]), ints(row[-1])     # (the Dwarf value stays at the bottom)
+                        d = by_off.get(o)
+                        if d is None or par != ([d.parent.offset] if d.parent else []) or un != [d.unit.offset]:
+                            bad = "asked in reverse unit order: DIE %#x has parent %r unit %r, stored parent %r unit %#x" % (
+                                o, par, un, [d.parent.offset] if d is not None and d.parent else [], d.unit.offset if d is not None else -1)
+                            break
             re_ = drv.run(pre + Q, tok, limit=20000, steps=50000000)
             direct = drv.run(pre + "entry", tok, limit=20000)
-            exp = DF.raw_entries(f)
             if not bad and ("error" in re_ or "error" in direct or not re_.get("end")):
                 bad = "raw entry failed: %r %r" % (re_.get("error"), direct.get("error"))
             if not bad and len(re_["res"]) != len(exp):
